@@ -39,7 +39,8 @@ PROPS["C08"]["engines"] = ["verus", "kani"]
 
 PROPS["C11"] = {
     "title": "Decoder consumes exactly what it returns and honours limits",
-    "units": {"quick": ["decoder"], "thorough": ["decoder"]},
+    "units": {"quick": ["decoder", "spirv_enums"], "thorough": ["decoder", "spirv_enums", "kani_masks"]},
+    "only_items": {"spirv_enums": [r"::from_u32$"]},
     "level": "proof",
     "technique": "Verus contracts on every extracted Decoder method and the 56 generated typed requests (view bytes/offset/limit, invariant offset <= len), limit lemma by induction over request histories",
     "design_ref": "DESIGN.md §4 C11",
@@ -129,7 +130,7 @@ PROPS["C14"] = {
 
 PROPS["C03"] = {
     "title": "Parser accepts exactly the grammar and reports the first malformed instruction",
-    "units": {"quick": ["parser_core", "parser_protocol"], "thorough": ["parser_core", "decoder", "table_core", "parser_protocol"]},
+    "units": {"quick": ["parser_core", "parser_protocol", "decoder", "table_core", "tracker", "spirv_enums"], "thorough": ["parser_core", "decoder", "table_core", "parser_protocol", "tracker", "spirv_enums", "kani_masks"]},
     "only_items": {"parser_protocol": [r"Parser::(parse|new)$", r"Action::consume"]},
     "level": "proof",
     "technique": "Verus contracts on the extracted parse_header/parse_inst/parse_operands/parse_spec_constant_op and the generated operand parsers: framing, error kinds, 1-based instruction number, offset inside the declared extent, exact word accounting, and conformance of every delivered operand vector to the grammar row (ghost match trace maintained in the real loops)",
@@ -148,7 +149,7 @@ PROPS["C03"] = {
 
 PROPS["C10"] = {
     "title": "Context-dependent literal widths follow the types declared earlier",
-    "units": {"quick": ["parser_core", "parser_protocol", "tracker"], "thorough": ["parser_core", "parser_protocol", "tracker"]},
+    "units": {"quick": ["parser_core", "parser_protocol", "tracker", "decoder"], "thorough": ["parser_core", "parser_protocol", "tracker", "decoder"]},
     "only_items": {"parser_core": [r"parse_literal", r"parse_operands", r"parse_inst"], "parser_protocol": [r"Parser::(parse|new)$"]},
     "level": "proof",
     "technique": "Verus contract on the extracted parse_literal: words consumed and operand variant as a function of the tracker's abstract map only; fresh tracker per parser; tracker semantics by bounded Kani check",
@@ -175,7 +176,7 @@ PROPS["C04"] = {
 
 PROPS["C02"] = {
     "title": "Assemble and parse are exact inverses on grammar-conforming instructions",
-    "units": {"quick": ["assemble", "kani_assemble_str", "parser_core", "parser_protocol", "tracker"], "thorough": ["assemble", "kani_assemble_str", "parser_core", "parser_protocol", "tracker", "decoder"]},
+    "units": {"quick": ["assemble", "kani_assemble_str", "parser_core", "parser_protocol", "tracker", "decoder"], "thorough": ["assemble", "kani_assemble_str", "parser_core", "parser_protocol", "tracker", "decoder"]},
     "only_items": {"parser_core": [r"parse_literal", r"parse_operand", r"parse_\w+_arguments", r"parse_inst", r"parse_spec_constant_op"],
                    "parser_protocol": [r"Parser::(parse|new)$"]},
     "engines": ["verus", "kani"],
@@ -213,8 +214,8 @@ PROPS["C17"] = {
 
 PROPS["C06"] = {
     "title": "Every module built with the Builder survives assemble-then-load unchanged",
-    "units": {"quick": ["builder_sections", "builder_ops", "builder_core", "loader", "method_sweep"], "thorough": ["builder_sections", "builder_ops", "builder_core", "loader", "assemble", "method_sweep"]},
-    "only_items": {"loader": [r"Loader::consume_instruction"]},
+    "units": {"quick": ["builder_sections", "builder_ops", "builder_core", "loader", "method_sweep", "reflect"], "thorough": ["builder_sections", "builder_ops", "builder_core", "builder_gen", "loader", "assemble", "method_sweep", "reflect"]},
+    "only_items": {"loader": [r"Loader::consume_instruction"], "reflect": [r"grammar::reflect::"]},
     "engines": ["verus", "replay-bounded"],
     "level": "proof",
     "technique": "Verus: one placement obligation per instruction-emitting Builder method (1147, builder_sections) and one operand-order obligation per generated method (1096, builder_ops: lifted operand constructions vs the real grammar row, by(compute_only)); Builder::module bound/version contract; hand-written methods' emitted shapes; plus a bounded replay sweep calling every generated method once and round-tripping the module",
@@ -245,9 +246,9 @@ PROPS["C15"] = {
 
 PROPS["C01"] = {
     "title": "Load-then-assemble reproduces every instruction of the input binary",
-    "units": {"quick": ["loader", "parser_protocol", "parser_core", "assemble", "decoder", "traversal_sweep"],
-              "thorough": ["loader", "parser_protocol", "parser_core", "assemble", "decoder", "traversal_sweep", "table_core"]},
-    "only_items": {"loader": [r"Loader::", r"step_adds", r"step_appends", r"ms_", r"step_refines"],
+    "units": {"quick": ["loader", "parser_protocol", "parser_core", "assemble", "decoder", "traversal_sweep", "tracker", "reflect"],
+              "thorough": ["loader", "parser_protocol", "parser_core", "assemble", "decoder", "traversal_sweep", "table_core", "tracker", "reflect"]},
+    "only_items": {"reflect": [r"grammar::reflect::"], "loader": [r"Loader::", r"step_adds", r"step_appends", r"ms_", r"step_refines"],
                    "parser_protocol": [r"Parser::(parse|new)$", r"Action::consume"],
                    "parser_core": [r"parse_inst", r"parse_header", r"parse_operands", r"parse_literal", r"create_"],
                    "assemble": [r"dr::(Block|Function|Instruction|ModuleHeader|Operand)::assemble_into", r"operand_facts"],
